@@ -29,7 +29,7 @@ NAME = z3.Function("last_segment", S, S)
 T_DIR = [
     "T2 rglob('*') lists every entry below the directory exactly once and does not descend into symlinks; every proper prefix of a listed relative path is itself listed and is a real directory (not a symlink, not a file)",
     "T2 pathlib normal form of relative paths: r = parent/name for r != '.', the parent of a one-segment path is '.', str(r).split('/') are its segments (['.'] for '.'), no other segment is '.'; relative_to(dir) is injective on the listed entries",
-    "rel_symlink(dir, p) returns the link target relative to dir, or None exactly when it leads outside (checked bounded; its pathlib calls are opaque)",
+    "rel_symlink(dir, p) returns the link target relative to dir, or None exactly when it leads outside (its own contract, RelSymlink, states this over the pathlib/os primitives; the two terms used here are that contract's result for base = dir)",
     "nested python dicts built here are a trie: every dict() is new and only reached by navigating from the result dict, so the tree is modelled by its set of (relative path -> directory | leaf value) entries",
 ]
 
@@ -294,4 +294,78 @@ def add_dirhash(reg):
     hashing.add_all(reg)
     s = DirHashsums()
     reg.add(s)
-    return [s]
+    r = RelSymlink()
+    reg.add(r)
+    return [s, r]
+
+
+# --- rel_symlink: the link target in terms of the pathlib/os primitives (T2) ----------------------------------------
+P_PARENT = z3.Function("pathlib_parent", S, S)
+P_JOIN = z3.Function("pathlib_joined_with_text", S, S, S)
+P_RESOLVE = z3.Function("pathlib_resolve", S, S)
+P_UNDER = z3.Function("pathlib_relative_to_is_defined", S, S, B)  # p.relative_to(b) does not raise ValueError
+P_RELTO = z3.Function("pathlib_relative_to", S, S, S)
+READLINK = z3.Function("os_readlink", S, S)
+
+T_LINK = [
+    "T2 pathlib/os primitives are functions of their arguments and the (unchanged) file system: Path.parent, Path / str, Path.resolve(), os.readlink(str(p)); p.relative_to(b) raises ValueError exactly when p is not below b and otherwise returns the relative path",
+    "symlink_target_relative_to_dir(p) and symlink_leads_outside_dir(p) of the dir_hashsums contract are, by definition, this function's result terms for base = the hashed directory",
+]
+
+
+def link_resolved(p_t):
+    return P_RESOLVE(P_JOIN(P_PARENT(p_t), READLINK(p_t)))
+
+
+class LinkPath(PathVal):
+    """a pathlib.Path in rel_symlink: every operation is the uninterpreted primitive above"""
+
+    def py_getattr(self, cx, name):
+        if name == "parent":
+            return LinkPath(P_PARENT(self.t))
+        raise Unsupported("Path attribute " + name)
+
+    def py_truediv(self, cx, o):
+        if not isinstance(o, SStr):
+            raise Unsupported("Path / non-text")
+        return LinkPath(P_JOIN(self.t, o.t))
+
+    def meth_resolve(self, cx):
+        return LinkPath(P_RESOLVE(self.t))
+
+    def meth_relative_to(self, cx, base):
+        if not isinstance(base, LinkPath):
+            raise Unsupported("relative_to a non-path")
+        if not cx.decide(P_UNDER(self.t, base.t)):
+            cx.py_raise("ValueError", "not in the subpath")
+        return LinkPath(P_RELTO(self.t, base.t))
+
+
+class OsMod(SVal):
+    def meth_readlink(self, cx, p):
+        if not isinstance(p, SStr):
+            raise Unsupported("os.readlink of a non-str")
+        return SStr(READLINK(p.t))
+
+
+class RelSymlink(FnSpec):
+    file = "util/hashsums.py"
+    qual = "rel_symlink"
+    props = ("C19",)
+
+    def init(self):
+        self.bindings["os"] = OsMod()
+
+    def setup(self, cx):
+        return A(base=LinkPath(z3.String("base")), dir=LinkPath(z3.String("link")))
+
+    def raises(self, cx, a):
+        return {}
+
+    def ensures(self, cx, a, res):
+        x, b = link_resolved(a.dir.t), P_RESOLVE(a.base.t)
+        is_none = res is None or (isinstance(res, SVal) and not isinstance(res, LinkPath) and res.py_is_none(cx) is True)
+        return [
+            ("none-iff-target-outside-the-resolved-base", z3.BoolVal(is_none) == z3.Not(P_UNDER(x, b)), "None is returned exactly when the resolved target (link's directory joined with the link text, resolved) is not below the resolved base directory, so in-directory links never count as outside and outside links never get a text"),
+            ("target-relative-to-the-resolved-base", z3.BoolVal(True) if is_none else (z3.BoolVal(isinstance(res, LinkPath)) if not isinstance(res, LinkPath) else res.t == P_RELTO(x, b)), "otherwise the result is the resolved target relative to the resolved base: a function of the link text and the directory structure only (no '..', no absolute prefix, no dependence on how the directory itself was reached)"),
+        ]
